@@ -50,6 +50,23 @@ type Contract struct {
 	Lemma    bool // a lemma: no Go body; requires ==> ensures is the obligation
 	Params   []SpecParam
 	Unroll   map[int]int
+	Atomics  map[string]*AtomicSpec // "Type.field" -> rely/guarantee
+	Inventory []InventorySpec
+}
+
+// AtomicSpec: rely/guarantee over (old, new) for one atomic field (DESIGN.md 3.5).
+type AtomicSpec struct {
+	Field     string
+	Rely      *Clause
+	Guarantee *Clause
+}
+
+// InventorySpec: the listed functions are the only ones that reference the field.
+type InventorySpec struct {
+	Field   string   // Type.field
+	Writers []string // function keys relative to the package
+	Tag     string
+	Line    int
 }
 
 type SpecParam struct {
@@ -77,7 +94,7 @@ type ContractSet struct {
 var clauseKeywords = map[string]bool{
 	"func": true, "requires": true, "ensures": true, "assigns": true, "loop": true,
 	"safety": true, "mode": true, "strings": true, "trusted": true, "pure": true, "inline": true,
-	"spec": true, "lemma": true, "at-call": true, "unroll": true,
+	"spec": true, "lemma": true, "at-call": true, "unroll": true, "atomic": true, "inventory": true,
 }
 
 var tagRe = regexp.MustCompile(`^\[(C[0-9]+\.[A-Za-z0-9_.-]+)\]\s*`)
@@ -272,6 +289,43 @@ func (cs *ContractSet) loadContractFile(path, pkgPath string) error {
 				}
 			case "safety":
 				cur.Safety = rest == "on"
+			case "atomic":
+				// atomic Type.field rely <expr> guarantee [tag] <expr>
+				gi := strings.Index(rest, " guarantee ")
+				ri := strings.Index(rest, " rely ")
+				if ri < 0 || gi < ri {
+					return fmt.Errorf("%s:%d: atomic clause needs: atomic T.f rely <e> guarantee <e>", path, st.line)
+				}
+				field := strings.TrimSpace(rest[:ri])
+				rc, err := mkClause("rely", strings.TrimSpace(rest[ri+6:gi]), st.line)
+				if err != nil {
+					return err
+				}
+				gc, err := mkClause("guarantee", strings.TrimSpace(rest[gi+11:]), st.line)
+				if err != nil {
+					return err
+				}
+				if cur.Atomics == nil {
+					cur.Atomics = map[string]*AtomicSpec{}
+				}
+				cur.Atomics[field] = &AtomicSpec{Field: field, Rely: rc, Guarantee: gc}
+			case "inventory":
+				// inventory [tag] Type.field only-in f1, f2
+				inv := InventorySpec{Line: st.line}
+				r2 := rest
+				if m := tagRe.FindStringSubmatch(r2); m != nil {
+					inv.Tag = m[1]
+					r2 = r2[len(m[0]):]
+				}
+				oi := strings.Index(r2, " only-in ")
+				if oi < 0 {
+					return fmt.Errorf("%s:%d: inventory clause needs: inventory T.f only-in f1, f2", path, st.line)
+				}
+				inv.Field = strings.TrimSpace(r2[:oi])
+				for _, w := range splitTop(r2[oi+9:], ',') {
+					inv.Writers = append(inv.Writers, strings.TrimSpace(w))
+				}
+				cur.Inventory = append(cur.Inventory, inv)
 			case "mode":
 				cur.Mode = rest
 			case "strings":
